@@ -389,7 +389,7 @@ def _hook_roundtrip(B: Any, cache_dir: Any, ctl: dict[str, Any], out: dict[str, 
     pending: dict[str, Any] = {"meta": {}, "ex": {}, "files": {}}
 
     def compare(kind: str, key: str, obj: Any) -> None:
-        want = state[kind].get(key)
+        want = pending[kind].get(key) or state[kind].get(key)     # a record re-written earlier in this run (mtime path) is read again
         if want is None or obj is None:
             return
         got = {k: _canon(v) for k, v in vars(obj).items()}
